@@ -41,7 +41,7 @@ def range_fixes(cfg, tier, seed):
     vals = [lo, lo + 1, mx, (1 << (sb - 1)) + 1, 3 * lo - 1, (lo << 1) | 0x5a5]
     rng = random.Random(seed * 1000003 + sb * 131 + wb)
     vals += [rng.randrange(lo, mx + 1) for _ in range(2 if tier == 'quick' else 10)]
-    if tier == 'quick': vals = vals[:4] + vals[6:]
+    if tier == 'quick': vals = [vals[0], vals[2], vals[6]]
     out = [dict(range=v, range0=v) for v in vals]
     return ([None] if sb <= 16 else []) + out
 
@@ -58,7 +58,7 @@ def cuts_fixes(cfg, tier, seed):
     for _ in range(2 if tier == 'quick' else 8):
         a = rng.randrange(1, T - 1); b = rng.randrange(a + 1, T)
         pairs.append((a, b))
-    if tier == 'quick': pairs = pairs[:4] + pairs[6:]
+    if tier == 'quick': pairs = [pairs[0], pairs[3], pairs[6]]
     return ([None] if tier == 'thorough' else []) + [dict(c1=a, c2=b) for a, b in pairs]
 
 PROPS['C01'] = dict(
@@ -113,16 +113,16 @@ INV_SOFT = [20, 21, 22, 23]
 PROPS['C02'] = dict(
     obligations=[
         L('c02_rt_k1', 'k_c02_rt_k1_{cfg}', RQ, RALL, fixes=range_fixes),
-        L('c02_rt_from_inverted', 'k_c02_rt_inv_k1_{cfg}', RQ, ['u8_u16_p4', 'u8_u16_p8', 'u16_u32_p12', 'u16_u32_p16', 'u32_u64_p24', 'u32_u64_p32'], fixes=range_fixes),
+        L('c02_rt_from_inverted', 'k_c02_rt_inv_k1_{cfg}', ['u8_u16_p4', 'u32_u64_p24'], ['u8_u16_p4', 'u8_u16_p8', 'u16_u32_p12', 'u16_u32_p16', 'u32_u64_p24', 'u32_u64_p32'], fixes=range_fixes),
         L('c02_rt_k2', 'k_c02_rt_k2_{cfg}', [], ['u8_u16_p4', 'u8_u16_p8', 'u8_u32_p8', 'u16_u32_p12', 'u32_u64_p24'], cap=dict(quick=90, thorough=600), explore_cap=dict(quick=300, thorough=3000)),
         L('c02_rt_k3', 'k_c02_rt_k3_{cfg}', [], ['u8_u16_p4', 'u8_u16_p8'], cap=dict(quick=90, thorough=900)),
-        L('c02_fresh_k2', 'k_c02_fresh_k2_{cfg}', ['u8_u16_p4'], ['u8_u16_p4', 'u8_u16_p8', 'u8_u32_p8', 'u16_u32_p12', 'u32_u64_p24'], cap=dict(quick=90, thorough=600), explore_cap=dict(quick=400, thorough=3000)),
+        L('c02_fresh_k2', 'k_c02_fresh_k2_{cfg}', [], ['u8_u16_p4', 'u8_u16_p8', 'u8_u32_p8', 'u16_u32_p12', 'u32_u64_p24'], cap=dict(quick=90, thorough=600), explore_cap=dict(quick=400, thorough=3000)),
         L('c02_fresh_k3', 'k_c02_fresh_k3_{cfg}', [], ['u8_u16_p8'], cap=dict(quick=90, thorough=900)),
         L('c02_step_inv', 'k_c02_step_inv_{cfg}', RQ, RALL, soft=INV_SOFT, fixes=range_fixes),
         L('c02_inverted_step_ref', 'k_c06_range_inv_{cfg}', ['u8_u16_p4', 'u16_u32_p12', 'u32_u64_p24'], ['u8_u16_p4', 'u8_u16_p8', 'u16_u32_p12', 'u16_u32_p16', 'u32_u64_p24'], fixes=range_fixes),
         K('c02_rt_k1_u8_u16_p4_cbmc', 'kk', 'c02_rt_k1_u8_u16_p4', tq=600),
-        K('c02_rt_k1_u8_u16_p8_cbmc', 'kk', 'c02_rt_k1_u8_u16_p8', tq=900),
-        K('c02_rt_k2_u8_u16_p4_cbmc', 'kk', 'c02_rt_k2_u8_u16_p4', tq=1200),
+        K('c02_rt_k1_u8_u16_p8_cbmc', 'kk', 'c02_rt_k1_u8_u16_p8', tiers=('thorough',), tt=3600),
+        K('c02_rt_k2_u8_u16_p4_cbmc', 'kk', 'c02_rt_k2_u8_u16_p4', tiers=('thorough',), tt=3600),
         K('c02_rt_k2_u8_u16_p8_cbmc', 'kk', 'c02_rt_k2_u8_u16_p8', tiers=('thorough',), tt=7200),
         K('c02_rt_k3_u8_u16_p4_cbmc', 'kk', 'c02_rt_k3_u8_u16_p4', tiers=('thorough',), tt=14400),
     ],
@@ -149,10 +149,10 @@ PROPS['C10'] = dict(
 PROPS['C11'] = dict(
     obligations=[
         L('c11_suffix_k1', 'k_c11_suffix_k1_{cfg}', RQ, ['u8_u16_p4', 'u8_u16_p8', 'u16_u32_p12', 'u16_u32_p16', 'u32_u64_p24', 'u32_u64_p32'], fixes=range_fixes),
-        L('c11_suffix_from_inverted', 'k_c11_suffix_inv_k1_{cfg}', RQ, ['u8_u16_p4', 'u8_u16_p8', 'u16_u32_p12', 'u16_u32_p16', 'u32_u64_p24', 'u32_u64_p32'], fixes=range_fixes),
+        L('c11_suffix_from_inverted', 'k_c11_suffix_inv_k1_{cfg}', ['u8_u16_p4', 'u32_u64_p24'], ['u8_u16_p4', 'u8_u16_p8', 'u16_u32_p12', 'u16_u32_p16', 'u32_u64_p24', 'u32_u64_p32'], fixes=range_fixes),
         L('c11_suffix_k2', 'k_c11_suffix_k2_{cfg}', [], ['u8_u16_p4', 'u8_u16_p8', 'u16_u32_p12', 'u32_u64_p24'], cap=dict(quick=90, thorough=600), explore_cap=dict(quick=300, thorough=3000)),
         K('c11_suffix_k2_u8_u16_p4_cbmc', 'kk', 'c11_suffix_k2_u8_u16_p4', tiers=('thorough',), tt=7200), K('c11_suffix_k1_u8_u16_p4_cbmc', 'kk', 'c11_suffix_k1_u8_u16_p4', tq=900),
-        K('c11_suffix_k1_u8_u16_p8_cbmc', 'kk', 'c11_suffix_k1_u8_u16_p8', tq=900),
+        K('c11_suffix_k1_u8_u16_p8_cbmc', 'kk', 'c11_suffix_k1_u8_u16_p8', tiers=('thorough',), tt=3600),
     ],
     bounds='as C02 cut obligations, with StateBits/WordBits + k arbitrary suffix words appended after the sealed output; StateBits = 2*WordBits configurations (all presets)',
     outside='StateBits > 2*WordBits: known finding (see known_findings.json), the obligation is not claimed there; k >= 3',
@@ -182,7 +182,7 @@ PROPS['C14'] = dict(
         L('c14_step_odd_precision', 'k_c13_step_{cfg}', ['u8_u16_p3'], ['u8_u16_p3', 'u8_u16_p7', 'u16_u32_p9', 'u32_u64_p17'], soft=[20, 21], fixes=cuts_fixes),
         L('c14_chunk', 'k_c14_chunk_{cfg}', ['u8_u16_p4', 'u8_u16_p8', 'u8_u16_p2', 'u16_u32_p8', 'u32_u64_p16'], ['u8_u16_p4', 'u8_u16_p8', 'u8_u16_p2', 'u16_u32_p8', 'u16_u32_p16', 'u32_u64_p16', 'u32_u64_p32']),
         L('c14_locality_k1', 'k_c13_rt_k1_{cfg}', ['u8_u16_p4', 'u8_u16_p8'], ['u8_u16_p4', 'u8_u16_p8', 'u8_u32_p8', 'u16_u32_p12', 'u32_u64_p24'], cap=dict(quick=60, thorough=600)),
-        L('c14_locality_k2', 'k_c13_rt_k2_{cfg}', ['u8_u16_p4', 'u8_u16_p3'], ['u8_u16_p4', 'u8_u16_p8', 'u16_u32_p12', 'u32_u64_p24'], cap=dict(quick=90, thorough=600)),
+        L('c14_locality_k2', 'k_c13_rt_k2_{cfg}', [], ['u8_u16_p4', 'u8_u16_p8', 'u16_u32_p12', 'u32_u64_p24'], cap=dict(quick=90, thorough=600)),
         L('c14_locality_k3', 'k_c13_rt_k3_{cfg}', [], ['u8_u16_p4', 'u8_u16_p3'], cap=dict(quick=90, thorough=900)),
     ],
     bounds='k <= 3 decoded symbols over arbitrary binary data (4-6 words); replacement model arbitrary at a symbolic position j; chunk reference for PRECISION dividing WordBits',
@@ -192,11 +192,11 @@ PROPS['C14'] = dict(
 
 PROPS['C09'] = dict(
     obligations=[
-        L('c09_ans', 'k_c09_ans_{cfg}', ['u8_u16_p4', 'u8_u16_p8', 'u16_u32_p12', 'u32_u64_p24'], soft=[20], fixes=cuts_fixes),
+        L('c09_ans', 'k_c09_ans_{cfg}', ['u8_u16_p4', 'u32_u64_p24'], ['u8_u16_p4', 'u8_u16_p8', 'u16_u32_p12', 'u32_u64_p24'], soft=[20], fixes=cuts_fixes),
         L('c09_chain', 'k_c09_chain_{cfg}', ['u8_u16_p4', 'u8_u16_p8', 'u16_u32_p12', 'u32_u64_p24']),
         K('c09_quantizer_wide_symbol', 'models', 'quantizer_wide_symbol_none', tq=600),
         K('c09_uniform_wide_symbol_p8', 'models', 'uniform_u8_p8', tq=600), K('c09_uniform_wide_symbol_p5', 'models', 'uniform_u8_p5', tq=600),
-        K('c09_contiguous_outside_none', 'models', 'fixed_contiguous_p4', tq=1500),
+        K('c09_contiguous_outside_none', 'models', 'fixed_contiguous_p4', tiers=('thorough',), tt=3600),
     ],
     bounds='one failing encode (impossible symbol, or write fault at a symbolic point of a bounded sink) after one successful encode from ANY invariant state; observational oracle: '
            'the earlier symbol still decodes and a further encode/decode round trip succeeds; out-of-support symbols over the full symbol type for every model family (Kani harnesses)',
@@ -256,7 +256,7 @@ PROPS['C15'] = dict(
     obligations=[
         K('c15_huffman_n1', 'bits', 'huffman_n1', tq=600), K('c15_huffman_n2', 'bits', 'huffman_n2', tq=600),
         K('c15_huffman_n3', 'bits', 'huffman_n3', tq=900), K('c15_huffman_n4', 'bits', 'huffman_n4', tiers=('thorough',), tt=7200),
-        K('c15_huffman_float_n3', 'bits', 'huffman_float_n3', tq=900),
+        K('c15_huffman_float_n2', 'bits', 'huffman_float_n2', tq=600), K('c15_huffman_float_n3', 'bits', 'huffman_float_n3', tiers=('thorough',), tt=7200),
     ],
     bounds='all weight vectors of n <= 3 (quick) / n <= 4 (thorough) u8 weights widened to u32 (no overflow), and all f32 triples (NaN => error; zeros, infinities, repeated weights); '
            'optimality against every complete code-length vector in every assignment; tie-breaking pinned by codeword lengths against a heap-free reference merge',
@@ -362,12 +362,11 @@ def _ub(o):
 
 _C20_SHARED = [o for pid in ('C17', 'C01', 'C16', 'C03', 'C19', 'C08') for o in PROPS[pid]['obligations']
                if o['engine'] == 'K' and o['id'] in (
-                   'c17_cursor_script', 'c17_reversed_equiv', 'c17_vec_stack', 'c17_cursor_none_sticky',
-                   'c01_ctor_u8_u16', 'c01_ctor_u32_u64', 'c01_reimport_u16_u32', 'c01_export_u32_u64',
-                   'c16_stack_export_import', 'c16_queue_fifo', 'c16_expgolomb_u8',
-                   'm_uniform_u8_p8', 'm_uniform_u8_p5', 'm_fast_f32_n3_p4_norm1', 'm_quantizer_u8_p4_sup3', 'm_fast_f32_n2_p3_anyinput', 'm_uniform_rejects',
-                   'm_fixed_contiguous_p8', 'm_fixed_contiguous_p4', 'm_fixed_contiguous_quantile_p8',
-                   'c08_range_guard_inverted_u8_u16', 'c08_bit_stack_guard')]
+                   'c17_cursor_script', 'c17_reversed_equiv', 'c17_vec_stack',
+                   'c01_ctor_u8_u16', 'c01_reimport_u16_u32',
+                   'c16_stack_export_import',
+                   'm_uniform_u8_p8', 'm_fast_f32_n3_p4_norm1', 'm_fixed_contiguous_p4', 'm_uniform_rejects',
+                   'c08_bit_stack_guard')]
 _seen = set(); _C20 = []
 for o in _C20_SHARED:
     if o['id'] not in _seen:
@@ -376,7 +375,7 @@ for o in _C20_SHARED:
 PROPS['C20'] = dict(
     obligations=[K('c20_cursor_buf_mut_restricted', 'c17', 'c20_cursor_buf_mut_restricted', tq=600, lib_panics='allow')] + _C20 + [
         L('c20_nopanic_ans', 'k_c10_ans_{cfg}', ['u8_u16_p8', 'u16_u32_p12', 'u32_u64_p24', 'u32_u64_p32']),
-        L('c20_nopanic_range', 'k_c10_range_{cfg}', ['u8_u16_p8', 'u16_u32_p16', 'u32_u64_p24']),
+        L('c20_nopanic_range', 'k_c10_range_{cfg}', ['u8_u16_p8', 'u32_u64_p24'], ['u8_u16_p8', 'u16_u32_p16', 'u32_u64_p24']),
         L('c20_nopanic_range_step', 'k_c10_range_step_{cfg}', ['u8_u16_p8', 'u32_u64_p24'], soft=INV_SOFT, fixes=range_fixes),
         L('c20_nopanic_chain', 'k_c13_step_{cfg}', ['u8_u16_p4', 'u32_u64_p24'], soft=[20, 21], fixes=cuts_fixes),
     ],
